@@ -26,7 +26,30 @@ type hostBehaviour struct {
 	kind      int
 	panicKind string
 	blockNs   int64
+	errKind   int // shape of the error returned for hbErr (see injectedErr)
 }
+
+// injectedErr: the host function's failure. Whatever else is in its chain, it
+// is (errors.Is) ErrInjected: a host error may wrap anything, including the
+// engine's own argument errors.
+func injectedErr(kind int) error {
+	switch kind % 5 {
+	case 1:
+		return fmt.Errorf("host wrapper: %w", ErrInjected)
+	case 2:
+		return errors.Join(ErrInjected, tengo.ErrWrongNumArguments)
+	case 3:
+		return &hostArgError{cause: tengo.ErrInvalidArgumentType{Name: "first", Expected: "int", Found: "string"}}
+	case 4:
+		return fmt.Errorf("lookup failed: %w (%w)", tengo.ErrWrongNumArguments, ErrInjected)
+	}
+	return ErrInjected
+}
+
+type hostArgError struct{ cause error }
+
+func (h *hostArgError) Error() string   { return "host argument check: " + h.cause.Error() }
+func (h *hostArgError) Unwrap() []error { return []error{ErrInjected, h.cause} }
 
 // soloEnv drives host functions while no simulated threads exist (set-up,
 // baselines, single-threaded sweeps): a plain counter, no messages.
@@ -39,6 +62,7 @@ type soloEnv struct {
 	Record    bool
 	Only      string // if set, only calls of the function with this name are counted, logged and faulted
 	Boom      int64  // value returned by the "boom" host function (switches planted failure sites on)
+	ErrKind   int    // see injectedErr
 }
 
 // HostCallRec is one host call observed in solo mode.
@@ -68,7 +92,7 @@ func (s *soloEnv) next(name string, args []tengo.Object) hostBehaviour {
 		s.Log = append(s.Log, rec)
 	}
 	if s.FailAt > 0 && s.Calls == s.FailAt {
-		return hostBehaviour{kind: s.FailHow, panicKind: s.PanicKind}
+		return hostBehaviour{kind: s.FailHow, panicKind: s.PanicKind, errKind: s.ErrKind}
 	}
 	return hostBehaviour{}
 }
@@ -83,6 +107,7 @@ func (e *Engine) SoloMarkers(failAt int, boom int64) {
 	e.solo = soloEnv{FailAt: failAt, FailHow: hbErr, Record: true, Only: "mk.mark", Boom: boom}
 }
 
+func (e *Engine) SoloErrKind(k int)      { e.solo.ErrKind = k }
 func (e *Engine) SoloLog() []HostCallRec { return e.solo.Log }
 func (e *Engine) SoloCalls() int         { return e.solo.Calls }
 
@@ -106,7 +131,7 @@ func (e *Engine) HostFunc(flavour, name string) tengo.CallableFunc {
 		}
 		switch hb.kind {
 		case hbErr:
-			return nil, ErrInjected
+			return nil, injectedErr(hb.errKind)
 		case hbPanic:
 			panic(panicValue(hb.panicKind))
 		case hbNil:
@@ -214,6 +239,7 @@ func (e *Engine) HostModule(flavour string) map[string]tengo.Object {
 	}
 	return map[string]tengo.Object{
 		"by":   &tengo.Bytes{Value: []byte("bytes-in-module")},
+		"b5":   &tengo.Bytes{Value: []byte("abcde")}, // its copies get spare capacity from append
 		"tm":   &tengo.Time{Value: time.Unix(86400, 0).UTC()},
 		"er":   &tengo.Error{Value: &tengo.String{Value: "module error value"}},
 		"mp":   &tengo.ImmutableMap{Value: map[string]tengo.Object{"a": &tengo.Int{Value: 1}, "l": &tengo.Array{Value: []tengo.Object{&tengo.Int{Value: 5}, &tengo.Int{Value: 6}}}}},
